@@ -338,7 +338,49 @@ func init() {
 	executors["recorded"] = func(o Op) string { return o.str("result") }
 }
 
+func init() {
+	// the splitters alone (cheap): every difference in a dense range must be split into squares
+	executors["rp-split"] = func(o Op) string {
+		d := unhx(o["d"])
+		var sp rangeproof.SquareSplitter = &rangeproof.FourSquaresSplitter{}
+		if n := o.int("table"); n > 0 {
+			sp = squaresTable(int64(n - 1))
+		}
+		sq, err := sp.Split(new(big.Int).Set(d))
+		if err != nil {
+			return "err"
+		}
+		if len(sq) != sp.SquareCount() {
+			return "wrong-count"
+		}
+		s := new(big.Int)
+		for _, v := range sq {
+			if v == nil || v.Sign() < 0 {
+				return "wrong-square"
+			}
+			s.Add(s, new(big.Int).Mul(v, v))
+		}
+		if s.Cmp(d) != 0 {
+			return "wrong-sum"
+		}
+		return "ok"
+	}
+}
+
 func genC13(g *Rng, tier string, emit func(Op)) {
+	{
+		dmax := int64(6000)
+		if tier == "thorough" {
+			dmax = 200000
+		}
+		for d := int64(0); d <= dmax; d++ {
+			emit(Op{"op": "rp-split", "class": "split-four-dense", "label": "ok", "nomodel": true, "d": hxi(d), "table": 0})
+		}
+		for i := 0; i < int(dmax/10); i++ {
+			emit(Op{"op": "rp-split", "class": "split-four-random", "label": "ok", "nomodel": true, "d": hx(g.bits(1 + g.intn(300))), "table": 0})
+		}
+	}
+
 	keys := []*KeyPair{fixedKey("k1024a", false)}
 	nrand := 10
 	window := int64(3)
